@@ -246,7 +246,8 @@ impl<'a> Evaluator<'a> {
             AggState::DistinctValue(mut values) => match self.node() {
                 CountDistinct(a) => {
                     let array = self.next(*a).eval(chunk)?;
-                    for value in array.iter() {
+                    // COUNT(DISTINCT x) does not count NULL
+                    for value in array.iter().filter(|v| !v.is_null()) {
                         values.insert(value);
                     }
                     AggState::DistinctValue(values)
@@ -274,7 +275,9 @@ impl<'a> Evaluator<'a> {
                 t => panic!("not aggregation: {t}"),
             }),
             AggState::DistinctValue(mut values) => {
-                values.insert(value);
+                if !value.is_null() {
+                    values.insert(value);
+                }
                 AggState::DistinctValue(values)
             }
         }
